@@ -199,7 +199,9 @@ Inductive op :=
 | Restart                     (* process exit; initGroupChain on the same files *)
 | ForkSwitch (h : N) (gs : list group)
                               (* newGroupChainFork(GetGroupByHeight h), gs inserted, triggerOnChain *)
-| DropIndex (ids : list id).  (* environment: the sqlite rows of these ids are lost *)
+| DropIndex (ids : list id)   (* environment: the sqlite rows of these ids are lost *)
+| SetIndexRow (i : id) (h : N).
+                              (* environment: a wrong or extra sqlite row (replace INTO hash i, height h) *)
 
 (* result codes: AddGroup as above; remove 0 = true, 1 = false; RemoveFrom 1 = no such ancestor;
    Restart 98 = panic, 99 = no termination; ForkSwitch 0 = true, 2 = false, 1 = no such ancestor *)
@@ -227,6 +229,7 @@ Definition step (fx : bool) (genesis : group) (s : state) (o : op) : state * N :
                                      (s', if b then 0 else 2)
                        end
   | DropIndex ids => (set_sq s (drop_rows ids (sq (st s))), 0)
+  | SetIndexRow i h => (set_sq s (sq_replace i h (sq (st s))), 0)
   end.
 
 Fixpoint run (fx : bool) (genesis : group) (s : state) (ops : list op) : state * list N :=
@@ -297,3 +300,42 @@ Fixpoint crun (lk : bool) (g0 : group) (s : state) (ts : list thread) (sched : l
               | None => crun lk g0 s ts r
               end
   end.
+
+(* ---- what a reader that does not take the lock can see (Count() and LastGroup() return the fields
+   without locking).  Inside the critical section save assigns  count++  before  lastGroup = group,
+   and remove assigns  count--  before  lastGroup = preGroup  (the LevelDB Put of "gcount" sits between
+   the two assignments).  [save_mid] / [remove_mid] are the memory states between the two assignments. *)
+Definition save_mid (s : state) (g : group) : state :=
+  {| st := st (save s g); count := count s + 1; last := last s |}.
+Definition remove_mid (s : state) (g : group) : state :=
+  {| st := st (fst (remove true s g)); count := count s - 1; last := last s |}.
+Definition lf_read (s : state) : N * group := (count s, last s).
+
+(* ---- schedules with environment events: the threads of crun, the loss of sqlite rows at any moment,
+   and a process exit at any moment between two steps (every goroutine is gone; a call parked in
+   CheckGroup is lost; initGroupChain runs on the files).  A process exit in the middle of a critical
+   section is a crash between Puts: out of scope. *)
+Inductive event := EThread (i : nat) | ELoss (ids : list id) | EExit.
+
+Fixpoint crun_env (lk : bool) (g0 : group) (s : state) (ts : list thread) (evs : list event)
+  : state * list thread :=
+  match evs with
+  | [] => (s, ts)
+  | EThread i :: r =>
+      match nth_error ts i with
+      | Some t => match tstep lk g0 s t with
+                  | Some (s', t') => crun_env lk g0 s' (upd_nth i t' ts) r
+                  | None => crun_env lk g0 s ts r
+                  end
+      | None => crun_env lk g0 s ts r
+      end
+  | ELoss ids :: r => crun_env lk g0 (set_sq s (drop_rows ids (sq (st s)))) ts r
+  | EExit :: r => match boot (st s) g0 with
+                  | BootOk s' => crun_env lk g0 s' [] r
+                  | _ => (s, ts)
+                  end
+  end.
+
+(* ---- triggerOnChain entered again after a pause (fork.current > fork.header): no removal, the
+   remaining fork groups are added until the first refusal ---- *)
+Definition trigger_reentry (s : state) (rest : list group) : state * bool := add_all s rest.
